@@ -12,7 +12,7 @@ PARTS = ["YYYY", "YY", "0Y", "GGGG", "GG", "0G", "Q", "MM", "0M", "DD", "0D", "J
 PARTS_BY_LEN = sorted(PARTS, key=len, reverse=True)
 UNDOCUMENTED = ["GITHASH", "HEXHASH"]
 TAGS = ["final", "dev", "alpha", "beta", "rc", "post"]
-PYTAG = {"final": "", "dev": "dev", "alpha": "a", "beta": "b", "rc": "rc", "post": "post"}
+PYTAG = {"final": "", "dev": "dev", "alpha": "a", "beta": "b", "rc": "rc", "post": "post", "preview": "rc"}
 CAL_FIELDS = ["year_y", "year_g", "quarter", "month", "dom", "doy", "week_w", "week_u", "week_v"]
 FIELD_OF = {"YYYY": "year_y", "YY": "year_y", "0Y": "year_y", "GGGG": "year_g", "GG": "year_g", "0G": "year_g",
             "Q": "quarter", "MM": "month", "0M": "month", "DD": "dom", "0D": "dom", "JJJ": "doy", "00J": "doy",
@@ -76,9 +76,11 @@ def _tokens_rtl(s):
     return out
 
 
-def parse_pattern(s, file_pattern=False):
+def parse_pattern(s, file_pattern=False, ambiguous="reject"):
     """Pattern string -> AST.  Raises OutsideGrammar for strings the documented grammar does not cover
-    (ambiguous juxtaposition of part names, undocumented parts, unbalanced brackets)."""
+    (ambiguous juxtaposition of part names, undocumented parts, unbalanced brackets).
+    ambiguous="rtl": where candidate part names overlap (a literal 0 in front of MM reads as 0M + M from the left), the right-most candidate wins -
+    the rule the implementation has always applied (`20YY` is the literal 20 and the part YY)"""
     for u in UNDOCUMENTED:
         if u in s:
             raise OutsideGrammar("undocumented part " + u)
@@ -88,8 +90,8 @@ def parse_pattern(s, file_pattern=False):
             pre = [{"t": "bol"}]; s = s[1:]
         if s.endswith("$") and not s.endswith("\\$"):
             post = [{"t": "eol"}]; s = s[:-1]
-    toks = _tokens_ltr(s)
-    if toks != _tokens_rtl(s):
+    toks = _tokens_rtl(s)
+    if ambiguous != "rtl" and toks != _tokens_ltr(s):
         raise OutsideGrammar("ambiguous part juxtaposition")
     pos = [0]
 
